@@ -507,7 +507,7 @@ fn main() {
     check.set_extra("grid_archives", json!(g.len()));
 
     // random archives
-    let n = check.tier.pick(4_000u32, 300_000);
+    let n = check.tier.pick(16_000u32, 300_000);
     pt::run(
         &check,
         "c01-random",
